@@ -191,6 +191,26 @@ func c16Case(c *core.Ctx, idx int) {
 					}
 				}
 			}
+			if k == 0 && len(data) > 0 && reuseM != nil {
+				// the same record once more from a buffer the caller then re-uses: every key is in the target
+				// already; the target must keep its own copies of them
+				in := append([]byte(nil), data...)
+				if err, pn := unmarshal(p, in, &reuseM); err != nil || pn != "" {
+					rec.Violation("json-unmarshal", fmt.Sprintf("[%s] into a re-used map, second time: %v %s", name, err, pn), nil)
+					return
+				}
+				for i := range in {
+					in[i] = 'X'
+				}
+				rec.Eval(1)
+				for key, e := range m {
+					got, ok := reuseM[key]
+					if !ok || !model.JSONEqual(e, got) {
+						rec.Violation("json-reuse", fmt.Sprintf("[%s] after decoding a record whose keys the target map held already and overwriting the input buffer, key %q is gone or changed (present %v, holds %s, the data said %s)", name, key, ok, showJSON(got), showJSON(e)), nil)
+						return
+					}
+				}
+			}
 			if k == 1 && len(data) > 0 && reuseA != nil {
 				if err, pn := unmarshal(p, data, &reuseA); err != nil || pn != "" {
 					rec.Violation("json-unmarshal", fmt.Sprintf("[%s] into a re-used array of length %d: %v %s", name, len(reuseA), err, pn), nil)
